@@ -360,6 +360,11 @@ nofold:
 			return a
 		}
 	}
+	if op == "bvor" {
+		if r := simplifyOr(a, b); r != nil {
+			return r
+		}
+	}
 	// canonical order for commutative ops so x*y and y*x intern equal
 	switch op {
 	case "bvadd", "bvmul", "bvand", "bvor", "bvxor":
@@ -557,7 +562,7 @@ func Resize(a *Term, w int, srcSigned bool) *Term {
 		if (a.Op == "zero_extend" || a.Op == "sign_extend") && a.Args[0].S.W == w {
 			return a.Args[0]
 		}
-		return mkP("extract", BV(w), w-1, 0, a)
+		return Extract(a, w-1, 0)
 	}
 	op := "zero_extend"
 	if srcSigned {
@@ -572,6 +577,12 @@ func Extract(a *Term, hi, lo int) *Term {
 	}
 	if lo == 0 && hi == a.S.W-1 {
 		return a
+	}
+	if a.Op == "extract" {
+		return Extract(a.Args[0], a.P[1]+hi, a.P[1]+lo)
+	}
+	if r := simplifyExtract(a, hi, lo); r != nil {
+		return r
 	}
 	return mkP("extract", BV(hi-lo+1), hi, lo, a)
 }
